@@ -726,6 +726,158 @@ namespace Ndt.Gen
     return u
 
 
+NP_FUN = {'sin': 'Complex.sin', 'cos': 'Complex.cos', 'sinh': 'Complex.sinh', 'cosh': 'Complex.cosh',
+          'exp': 'Complex.exp', 'log': 'Complex.log'}
+
+
+class CTr:
+    """complex-valued expressions of the Bicomplex leaf methods -> Lean terms over ℂ"""
+
+    def __init__(self, env):
+        self.env = dict(env)
+
+    def e(self, n):
+        if isinstance(n, ast.Constant) and isinstance(n.value, (int, float)) and not isinstance(n.value, bool):
+            v = n.value
+            if float(v) == int(v):
+                return '(%d : ℂ)' % int(v)
+            from fractions import Fraction
+            fr = Fraction(repr(float(v)))
+            return '((%d : ℂ) / %d)' % (fr.numerator, fr.denominator)
+        if isinstance(n, ast.Name) and n.id in self.env:
+            return self.env[n.id]
+        if isinstance(n, ast.Attribute) and isinstance(n.value, ast.Name) and n.value.id in ('self', 'other') and n.attr in ('z1', 'z2'):
+            return '%s.%s' % (n.value.id, n.attr)
+        if isinstance(n, ast.UnaryOp) and isinstance(n.op, ast.USub):
+            return '(-%s)' % self.e(n.operand)
+        if isinstance(n, ast.BinOp) and type(n.op) in (ast.Add, ast.Sub, ast.Mult, ast.Div):
+            op = {ast.Add: '+', ast.Sub: '-', ast.Mult: '*', ast.Div: '/'}[type(n.op)]
+            return '(%s %s %s)' % (self.e(n.left), op, self.e(n.right))
+        if isinstance(n, ast.Call) and isinstance(n.func, ast.Attribute) and isinstance(n.func.value, ast.Name) \
+                and n.func.value.id == 'np' and len(n.args) == 1:
+            f = n.func.attr
+            x = self.e(n.args[0])
+            if f in NP_FUN:
+                return '(%s %s)' % (NP_FUN[f], x)
+            if f == 'expm1':
+                return '(Complex.exp %s - 1)' % x
+            if f == 'log1p':
+                return '(Complex.log (1 + %s))' % x
+        raise Unsupported('complex expression ' + ast.unparse(n)[:80])
+
+    def method(self, f):
+        """body: local assignments, optional `other = self._coerce(other)`, `return Bicomplex(e1, e2)`"""
+        lets = []
+        for st in f.body:
+            if isinstance(st, ast.Expr) and isinstance(st.value, ast.Constant):
+                continue
+            if isinstance(st, ast.Assign) and len(st.targets) == 1:
+                t = st.targets[0]
+                if isinstance(t, ast.Name) and t.id == 'other' and ast.unparse(st.value) == 'self._coerce(other)':
+                    continue
+                if isinstance(t, ast.Name):
+                    v = self.e(st.value)
+                    self.env[t.id] = t.id
+                    lets.append('let %s : ℂ := %s' % (t.id, v))
+                    continue
+                if isinstance(t, ast.Tuple) and isinstance(st.value, ast.Tuple) and len(t.elts) == len(st.value.elts):
+                    vals = [self.e(v) for v in st.value.elts]
+                    for nm, v in zip(t.elts, vals):
+                        lets.append('let %s : ℂ := %s' % (nm.id, v))
+                    for nm in t.elts:
+                        self.env[nm.id] = nm.id
+                    continue
+            if isinstance(st, ast.Return) and isinstance(st.value, ast.Call) and getattr(st.value.func, 'id', '') == 'Bicomplex' \
+                    and len(st.value.args) == 2:
+                a, b = (self.e(x) for x in st.value.args)
+                return '\n  '.join(lets + ['⟨%s, %s⟩' % (a, b)])
+            raise Unsupported('statement ' + ast.unparse(st)[:80])
+        raise Unsupported('no return')
+
+
+EXTRA_UNITS = []
+
+
+def gen_bicomplex(status, baseline):
+    u = Unit('Bicomplex.lean', '''/- GENERATED by translator/py2lean.py from src/numdifftools/multicomplex.py (leaf methods of Bicomplex,
+   as terms over ℂ: np.sin ↦ Complex.sin, …) — do not edit -/
+import Mathlib.Analysis.Complex.Trigonometric
+import Mathlib.Analysis.SpecialFunctions.Complex.Log
+namespace Ndt.Gen
+/-- `Bicomplex(z1, z2)` = z1 + j z2 -/
+structure BC where
+  z1 : ℂ
+  z2 : ℂ
+''')
+    mod = parse('multicomplex.py')
+    cls = find_class(mod, 'Bicomplex')
+    fs = funcs_of(cls)
+    unary = ['__neg__', 'conjugate', 'sin', 'cos', 'cosh', 'sinh', 'exp', 'expm1']
+    binary = ['__add__', '__sub__', '__mul__']
+    for name in unary + binary:
+        key = 'Bicomplex.' + name
+        lname = name.strip('_')
+        try:
+            if name not in fs:
+                raise Unsupported('method not found')
+            body = CTr({}).method(fs[name])
+            sig = '(self other : BC)' if name in binary else '(self : BC)'
+            u.add(key, 'noncomputable def BC.%s %s : BC :=\n  %s' % (lname, sig, body))
+            status[key] = {'ok': True}
+        except Unsupported as ex:
+            status[key] = {'ok': False, 'error': str(ex)}
+            if key in baseline:
+                u.add(key, baseline[key]['text'])
+    # the ring operations once more, computable and generic in the component type (run by the driver on
+    # Gaussian rationals)
+    ring = Unit('BicomplexRing.lean', '''/- GENERATED by translator/py2lean.py from src/numdifftools/multicomplex.py (ring operations of Bicomplex,
+   generic in the component type) — do not edit -/
+namespace Ndt.Gen
+structure Bc (C : Type) where
+  z1 : C
+  z2 : C
+variable {C : Type} [Add C] [Sub C] [Mul C] [Neg C]
+''')
+    for name in ['__neg__', 'conjugate', '__add__', '__sub__', '__mul__']:
+        key = 'BicomplexRing.' + name
+        try:
+            body = CTr({}).method(fs[name]).replace(' : ℂ', ' : C')
+            sig = '(self other : Bc C)' if name in binary else '(self : Bc C)'
+            ring.add(key, 'def Bc.%s %s : Bc C :=\n  %s' % (name.strip('_'), sig, body))
+            status[key] = {'ok': True}
+        except (Unsupported, KeyError) as ex:
+            status[key] = {'ok': False, 'error': str(ex)}
+            if key in baseline:
+                ring.add(key, baseline[key]['text'])
+    EXTRA_UNITS.append(ring)
+    # log1p: Bicomplex(<modulus part>, self.arg_c1p()) — only the first component is a leaf formula
+    try:
+        f = fs['log1p']
+        ret = [st for st in f.body if isinstance(st, ast.Return)][0]
+        tr = CTr({})
+        for st in f.body:
+            if isinstance(st, ast.Assign) and isinstance(st.targets[0], ast.Tuple):
+                for nm, v in zip(st.targets[0].elts, st.value.elts):
+                    tr.env[nm.id] = tr.e(v)
+        if ast.unparse(ret.value.args[1]) != 'self.arg_c1p()':
+            raise Unsupported('log1p second component changed')
+        u.add('Bicomplex.log1p.z1', 'noncomputable def BC.log1p_z1 (self : BC) : ℂ :=\n  %s' % tr.e(ret.value.args[0]))
+        status['Bicomplex.log1p.z1'] = {'ok': True}
+        # mod_c
+        m = fs['mod_c']
+        src = flat(ast.unparse(m))
+        if 'r11, r22 = (self.z1 * self.z1, self.z2 * self.z2)' not in src or 'r = np.sqrt(r11 + r22)' not in src:
+            raise Unsupported('mod_c changed')
+        u.add('Bicomplex.mod_c_sq', 'noncomputable def BC.mod_c_sq (self : BC) : ℂ := self.z1 * self.z1 + self.z2 * self.z2')
+        status['Bicomplex.mod_c'] = {'ok': True}
+    except (Unsupported, KeyError, IndexError) as ex:
+        status['Bicomplex.log1p.z1'] = {'ok': False, 'error': str(ex)}
+        for k in ('Bicomplex.log1p.z1', 'Bicomplex.mod_c_sq'):
+            if k in baseline:
+                u.add(k, baseline[k]['text'])
+    return u
+
+
 PRELUDE = '''/- GENERATED by translator/py2lean.py — do not edit -/
 namespace Ndt.Gen
 /-- the closed universe of method names (anything else is `other`) -/
@@ -758,12 +910,14 @@ def main(update_baseline=False):
     baseline = json.load(open(bpath)) if os.path.exists(bpath) else {}
     status = {}
     units = []
-    for gen in (gen_logrule, gen_steps, gen_guards):
+    del EXTRA_UNITS[:]
+    for gen in (gen_logrule, gen_steps, gen_guards, gen_bicomplex):
         try:
             units.append(gen(status, baseline))
         except Exception as ex:     # whole-unit failure (class missing, syntax error ...)
             status['unit:' + gen.__name__] = {'ok': False, 'error': repr(ex)}
     changed = write_if_changed(os.path.join(GEN, 'Prelude.lean'), PRELUDE)
+    units = units + EXTRA_UNITS
     for u in units:
         text = u.header + '\n' + '\n\n'.join(t for _k, t in u.items) + '\n\nend Ndt.Gen\n'
         changed |= write_if_changed(os.path.join(GEN, u.fname), text)
